@@ -162,6 +162,8 @@ class Interp(Arith):
         self.calls.add(f"{fn.__module__}.{qn}")
         env = self.bind(fn, node, args, kwargs)
         fr = Frame(env, fn.__globals__, qn)
+        fr.fn = fn
+        fr.first = args[0] if args else None
         if fn.__closure__:
             for name, cell in zip(fn.__code__.co_freevars, fn.__closure__):
                 try:
